@@ -1,4 +1,5 @@
-import RgVerif.Lemmas.GitLine2
+import RgVerif.Lemmas.GitLine3
+import RgVerif.Lemmas.GitStar
 /-
 C04 — ignore files mean what git says.  Only the deciding statements; proofs in `Lemmas/Git*.lean`.
 
@@ -22,11 +23,25 @@ theorem last_match_wins (G : List GiGlob) (p : Bytes) (isDir : Bool) (hd : lastC
       (G.reverse.find? fun g => g.hits p isDir).map fun g => !g.isWhitelist :=
   matchedStripped_last_wins G p isDir hd
 
-/-- **Line level** (`okLine`: `[!][/]name(/name)*[/]` with plain names): ripgrep's `add_line` rewrite
-(`**/name` for a pattern without slash, the anchored path otherwise, directory-only, whitelist) and git's
-reading (basename rule, anchoring, `MUSTBEDIR`, `NEGATIVE`) select the same entries with the same polarity,
-for every well-formed relative path. -/
-theorem addline_wildmatch (l : List Nat) (h : okLine l = true) : LineAgree false l :=
+/-- **Line level** (`okLineW`: `[!][/]core[/]` with `core` made of literal characters, `?`, single `*`, `\x`
+escapes and `/` separators; case-sensitive, or case-insensitive without escapes): ripgrep's `add_line` rewrite
+(`**/core` for a pattern without slash, the anchored glob otherwise, directory-only, whitelist; globset tokens
+under `literal_separator`) and git's reading (basename rule with plain `fnmatch`, `WM_PATHNAME` wildmatch
+otherwise, `MUSTBEDIR`, `NEGATIVE`) select the same entries with the same polarity, for every well-formed
+relative path: wildcards do not cross `/`, a leading or inner slash anchors, a trailing slash restricts to
+directories, `!` re-includes. -/
+theorem addline_wildmatch (ci : Bool) (l : List Nat) (h : okLineW ci l = true) : LineAgree ci l :=
+  lineAgree_of_okLineW ci l h
+
+/-- **`**` spans whole directories** (`okLineS`: `[!][/]core[/]` with `core` of the form
+[`**/`] S₀ (`/**/` Sᵢ)* [`/**`], the Sᵢ wildcard segments): ripgrep's tokens `RecursivePrefix`,
+`RecursiveZeroOrMore` and its rewrite of a final `/**` to `/**/*` select exactly the entries git's `wildmatch`
+selects for `**/`, `/**/` and a final `/**`, for every well-formed relative path. -/
+theorem addline_wildmatch_dstar (ci : Bool) (l : List Nat) (h : okLineS ci l = true) : LineAgree ci l :=
+  lineAgree_of_okLineS ci l h
+
+/-- the literal sub-grammar of the first pass is contained in it -/
+theorem addline_wildmatch_literal (l : List Nat) (h : okLine l = true) : LineAgree false l :=
   lineAgree_of_okLine l h
 
 /-- **File level**: if every line of an ignore file means the same to ripgrep and to git, the file does. -/
@@ -42,14 +57,16 @@ theorem C04_tree (ci : Bool) (ign : List Bytes → List (List Nat)) (comps : Lis
     rgSkipped ci ign comps isDir = GitSpec.gitIgnored ci ign comps isDir :=
   rgSkipped_eq_gitIgnored ci ign comps isDir hag hwf
 
-/-- lines the composition below accepts: the literal sub-grammar, comments, empty lines -/
-def okFileLine (l : List Nat) : Bool := okLine l || l.isEmpty || l.head? == some 35
+/-- lines the composition below accepts: the wildcard and the `**` sub-grammars, comments, empty lines -/
+def okFileLine (ci : Bool) (l : List Nat) : Bool :=
+  okLineW ci l || okLineS ci l || l.isEmpty || l.head? == some 35
 
-theorem lineAgree_of_okFileLine (l : List Nat) (h : okFileLine l = true) : LineAgree false l := by
+theorem lineAgree_of_okFileLine (ci : Bool) (l : List Nat) (h : okFileLine ci l = true) : LineAgree ci l := by
   unfold okFileLine at h
   simp only [Bool.or_eq_true, beq_iff_eq] at h
-  rcases h with (h | h) | h
-  · exact lineAgree_of_okLine l h
+  rcases h with ((h | h) | h) | h
+  · exact lineAgree_of_okLineW ci l h
+  · exact lineAgree_of_okLineS ci l h
   · have : l = [] := by simpa using h
     subst this
     intro rel isDir _
@@ -62,30 +79,46 @@ theorem lineAgree_of_okFileLine (l : List Nat) (h : okFileLine l = true) : LineA
       subst h
       simp [mHit, sHit, addLine, startsWith, List.isPrefixOf, GitSpec.parsePat]
 
-/-- **C04** (partial, guard `okFileLine` on every line, case-sensitive): for all trees and all placements of
-ignore files whose lines are in the literal sub-grammar, ripgrep skips exactly what git ignores. -/
-theorem C04_partial (ign : List Bytes → List (List Nat)) (comps : List Bytes) (isDir : Bool)
-    (hok : ∀ d, ∀ l ∈ ign d, okFileLine l = true) (hwf : wfRel comps = true) :
-    rgSkipped false ign comps isDir = GitSpec.gitIgnored false ign comps isDir :=
-  C04_tree false ign comps isDir
-    (fun d => C04_file false (ign d) (fun l hl => lineAgree_of_okFileLine l (hok d l hl))) hwf
+/-- **C04** (partial, guard `okFileLine` on every line; with and without case-insensitive matching): for all
+trees, any depth, and all placements of ignore files whose lines are in the wildcard sub-grammar, ripgrep
+skips exactly what git ignores. -/
+theorem C04_partial (ci : Bool) (ign : List Bytes → List (List Nat)) (comps : List Bytes) (isDir : Bool)
+    (hok : ∀ d, ∀ l ∈ ign d, okFileLine ci l = true) (hwf : wfRel comps = true) :
+    rgSkipped ci ign comps isDir = GitSpec.gitIgnored ci ign comps isDir :=
+  C04_tree ci ign comps isDir
+    (fun d => C04_file ci (ign d) (fun l hl => lineAgree_of_okFileLine ci l (hok d l hl))) hwf
 
 /-- the unguarded line-level statement -/
 def addline_wildmatch_full : Prop := ∀ (ci : Bool) (l : List Nat), LineAgree ci l
 
-/-- witness: the line `!` — ripgrep compiles it to the whitelist glob `**/` (tokens `[RecursivePrefix]`, which
-matches everything), git to an empty negative pattern that matches nothing -/
+/-- witness: the line `\/` (an escaped slash and nothing else) — `add_line` strips the trailing slash
+(directories only) and then the escaping backslash, is left with the empty pattern, prefixes `**/` and obtains
+the tokens `[RecursivePrefix]`, which match everything: every directory is ignored.  git reads a directory-only
+pattern `\` whose dangling escape matches nothing.  (The older witness, the lone `!`, was repaired in /repo by
+9332074 and is skipped by the model as well.) -/
 theorem addline_wildmatch_full_fails : ¬ addline_wildmatch_full := by
   intro h
-  have := h false [33] [[97]] false (by decide)
+  have := h false [92, 47] [[97]] true (by decide)
   revert this
   simp [mHit, sHit, GitSpec.parsePat, GitSpec.patMatches, GitSpec.trimSpaces, GitSpec.trimSpaces.go,
     GitSpec.stripNeg, GitSpec.stripDir, GitSpec.stripLead, GitSpec.wm]
   decide
 
-/-- the guard is satisfiable by non-trivial lines: `!/a.b/c-d/` (negated, anchored, two components, a name
-with a dot and one with a dash, directory-only) and `A.` (a name ending in `.`) -/
-example : okLine [33, 47, 97, 46, 98, 47, 99, 45, 100, 47] = true ∧ okLine [65, 46] = true := by decide
+/-- the repaired case: a lone `!` (or `/`, or `!/`) carries no pattern for ripgrep either -/
+example : (match addLine false [33] with | .skip => true | _ => false) = true ∧
+          (match addLine false [47] with | .skip => true | _ => false) = true ∧
+          (match addLine false [33, 47] with | .skip => true | _ => false) = true := by decide
+
+/-- the guards are satisfiable by non-trivial lines: `!/a.b/c-d/` (negated, anchored, two components, a name
+with a dot and one with a dash, directory-only), `A.` (a name ending in `.`), and wildcard lines -/
+example : okLine [33, 47, 97, 46, 98, 47, 99, 45, 100, 47] = true ∧ okLine [65, 46] = true ∧
+    -- `!/a*/?.\*b/`, `*.A` case-insensitively, `a?b/c*`
+    okLineW false [33, 47, 97, 42, 47, 63, 46, 92, 42, 98, 47] = true ∧ okLineW true [42, 46, 65] = true ∧
+    okLineW true [97, 63, 98, 47, 99, 42] = true ∧
+    -- `a/**`, `**/a*`, `!/a/**/b?/`, `**/x/**` case-insensitively
+    okLineS false [97, 47, 42, 42] = true ∧ okLineS false [42, 42, 47, 97, 42] = true ∧
+    okLineS false [33, 47, 97, 47, 42, 42, 47, 98, 63, 47] = true ∧
+    okLineS true [42, 42, 47, 120, 47, 42, 42] = true := by decide
 
 /-- and the composed statement is exercised by a two-level tree: root ignores `b` and `/d/`, `a/.gitignore`
 re-includes `b`; `a/b` is kept, `b` and `d/x` are skipped -/
